@@ -213,8 +213,11 @@ Section Main.
     - apply raise_law; assumption.
   Qed.
 
-  Theorem step_law s o : law_step vld s o (step vld s o) = [].
+  Definition not_detached (o : op) : bool := match o with Copy CopyPickleDetached => false | _ => true end.
+
+  Theorem step_law s o : not_detached o = true -> law_step vld s o (step vld s o) = [].
   Proof.
+    intros Hnd.
     destruct o as [x|x|x|hint| |args|a|a|a|a|args|args|l|k]; cbn [step].
     - (* Add *)
       destruct (vld x) as [v|] eqn:Ev.
@@ -302,21 +305,26 @@ Section Main.
     - (* SymDiffUpdate *)
       apply xor_law; reflexivity.
     - (* Copy *)
-      eapply law_step_intro with (bo := Ok) (ba := s); cbn [o_out o_after o_events o_ret o_copy_validates o_observed].
-      + reflexivity.
-      + reflexivity.
-      + apply seteq_refl.
-      + reflexivity.
-      + apply clauses_raise.
-      + cbn. rewrite seteq_refl. reflexivity.
-      + reflexivity.
+      destruct k; try discriminate Hnd;
+        (eapply law_step_intro with (bo := Ok) (ba := s);
+         cbn [o_out o_after o_events o_ret o_copy_validates o_observed];
+         [ reflexivity | reflexivity | apply seteq_refl | reflexivity | apply clauses_raise
+         | cbn; rewrite seteq_refl; reflexivity | reflexivity ]).
   Qed.
 
   (* The law holds on every history of the model, from every state. *)
-  Theorem run_law : forall ops s i, law_hist vld i s (run vld s ops) = [].
+  Theorem run_law : forall ops s i, forallb not_detached ops = true -> law_hist vld i s (run vld s ops) = [].
   Proof.
-    induction ops as [|o ops IH]; intros s i; cbn [run law_hist]; [reflexivity|].
-    rewrite step_law. cbn [map app]. apply IH.
+    induction ops as [|o ops IH]; intros s i Hnd; cbn [run law_hist]; [reflexivity|].
+    cbn [forallb] in Hnd. apply andb_true_iff in Hnd. destruct Hnd as [Ho Hr].
+    rewrite (step_law s o Ho). cbn [map app]. apply IH. exact Hr.
+  Qed.
+
+  (* the known finding: the detached pickle copy fails the copy clause (and only it) *)
+  Lemma detached_copy_refuted s : law_step vld s (Copy CopyPickleDetached) (step vld s (Copy CopyPickleDetached)) = [8].
+  Proof.
+    cbn [step]. unfold law_step. cbn [builtin o_ret o_out o_after o_events o_copy_validates o_observed outcome_eqb is_raise negb orb is_copy].
+    rewrite !seteq_refl. cbn. reflexivity.
   Qed.
 End Main.
 
@@ -347,14 +355,14 @@ Section Readings.
     apply chk_app_nil in H; destruct H as [H7 H]. repeat split; assumption.
   Qed.
 
-  Lemma step_delta s o rem add :
+  Lemma step_delta s o rem add (Hnd : not_detached o = true) :
     In (rem, add) (o_events (step vld s o)) ->
     (forall x, mem x rem = true -> mem x s = true) /\
     (forall x, mem x add = true -> mem x s = false) /\
     (forall x, mem x (o_after (step vld s o)) = (mem x s && negb (mem x rem)) || mem x add) /\
     (exists x, mem x rem = true \/ mem x add = true).
   Proof.
-    intros Hin. pose proof (law_step_inv s o _ (step_law vld s o)) as H.
+    intros Hin. pose proof (law_step_inv s o _ (step_law vld s o Hnd)) as H.
     destruct (builtin vld s o (o_ret (step vld s o))) as [bo ba].
     destruct H as (_ & _ & _ & _ & _ & _ & H7).
     rewrite forallb_forall in H7. specialize (H7 _ Hin). unfold event_ok in H7.
@@ -368,22 +376,22 @@ Section Readings.
         apply is_empty_false in Hn; destruct Hn as [x Hx]; exists x; tauto.
   Qed.
 
-  Lemma step_one_event_iff_changed s o :
+  Lemma step_one_event_iff_changed s o (Hnd : not_detached o = true) :
     (seteq s (o_after (step vld s o)) = true -> o_events (step vld s o) = []) /\
     (seteq s (o_after (step vld s o)) = false -> exists ev, o_events (step vld s o) = [ev]).
   Proof.
-    pose proof (law_step_inv s o _ (step_law vld s o)) as H.
+    pose proof (law_step_inv s o _ (step_law vld s o Hnd)) as H.
     destruct (builtin vld s o (o_ret (step vld s o))) as [bo ba].
     destruct H as (_ & _ & _ & H4 & H5 & H6 & _).
     destruct (o_events (step vld s o)) as [|ev [|ev2 r]]; split; intros Hs; rewrite Hs in *; cbn in *;
       try reflexivity; try discriminate; exists ev; reflexivity.
   Qed.
 
-  Lemma step_failing_inert s o e :
+  Lemma step_failing_inert s o e (Hnd : not_detached o = true) :
     o_out (step vld s o) = Raise e ->
     (forall x, mem x (o_after (step vld s o)) = mem x s) /\ o_events (step vld s o) = [].
   Proof.
-    intros He. pose proof (law_step_inv s o _ (step_law vld s o)) as H.
+    intros He. pose proof (law_step_inv s o _ (step_law vld s o Hnd)) as H.
     destruct (builtin vld s o (o_ret (step vld s o))) as [bo ba].
     destruct H as (_ & _ & H3 & _). rewrite He in H3. cbn in H3.
     apply andb_true_iff in H3. destruct H3 as [Ha Hn].
@@ -391,12 +399,12 @@ Section Readings.
     destruct (o_events (step vld s o)); [reflexivity | discriminate].
   Qed.
 
-  Lemma step_refines_builtin s o :
+  Lemma step_refines_builtin s o (Hnd : not_detached o = true) :
     let ob := step vld s o in
     let '(bo, ba) := builtin vld s o (o_ret ob) in
     o_out ob = bo /\ (forall x, mem x (o_after ob) = mem x ba).
   Proof.
-    cbn zeta. pose proof (law_step_inv s o _ (step_law vld s o)) as H.
+    cbn zeta. pose proof (law_step_inv s o _ (step_law vld s o Hnd)) as H.
     destruct (builtin vld s o (o_ret (step vld s o))) as [bo ba].
     destruct H as (H1 & H2 & _). split.
     - destruct (o_out (step vld s o)) as [|e1], bo as [|e2]; cbn in H1; try discriminate; try reflexivity.
